@@ -5,6 +5,7 @@ CONSTANTS
   NoCall <- NoCallT
   None = "None"
 CONSTRAINT Progress
+CONSTRAINT Prune
 INVARIANT MutualExclusion
 INVARIANT FIFO
 INVARIANT HolderIsHead
